@@ -1,5 +1,5 @@
 """Per-property checks."""
-import json, os, random, time
+import hashlib, json, os, random, re, time
 from driver import *
 import catcheck, refharness, gspec, cores
 
@@ -472,6 +472,7 @@ def c19_grammars(quick):
     out.append(("f1_nullable_cycle", hdr + "T <- Z / \"\"\nZ <- R2 Z / 'q'\nR2 <- T / 'a'\n", lr))
     out.append(("two_cycles", hdr + "S <- A 'x' / B 'y'\nA <- B 'a' / 'a'\nB <- A 'b' / S 'c' / 'b'\n", lr))
     out.append(("three_scc", hdr + "E <- E '+' T / T\nT <- T '*' F / F\nF <- '(' E ')' / G\nG <- G 'g' / 'n'\n", lr))
+    out.append(("two_sccs", hdr + "S <- Sum / Path\nSum <- Prod '+' N / N\nProd <- Sum '*' N / N\nPath <- Step '/' I / I\nStep <- Path '.' I / I\nN <- [0-9]\nI <- [a-z]\n", lr))
     out.append(("mutual_nullable", hdr + "A <- B? A 'x' / C\nB <- C? 'b'\nC <- A? 'c' / \"\"\n", lr))
     out.append(("opt_shared_leaf", hdr + "S <- A B A / B\nA <- 'a' / 'b'\nB <- 'c' A / [d-e]\nU <- 'u'\n", dict(optGrammar=True)))
     out.append(("opt_chain", hdr + "S <- A 'd'\nA <- B 'c'?\nB <- 'a' / 'b'\nC <- 'x' B\nD <- C C\n", dict(optGrammar=True)))
@@ -631,7 +632,7 @@ def check_C13(tier, seed):
     rnd = random.Random(seed)
     if quick:
         stride, off = 4, rnd.randrange(4)
-        args = [gi * maxlen + p for gi, g in enumerate(gs) for p in (range(len(g.encode())) if len(g.encode()) <= 30 else range(off, len(g.encode()), stride))]
+        args = [gi * maxlen + p for gi, g in enumerate(gs) for p in (range(off % 2, len(g.encode()), 2) if len(g.encode()) <= 30 else range(off, len(g.encode()), stride))]
     else:
         args = [gi * maxlen + p for gi, g in enumerate(gs) for p in range(0, len(g.encode()) - width + 1, 1 if gi < 4 else 3)]
     agg2 = overlay_explore(rep, "C13", ov, "Harness_C13mut$", 0, 0, 120 if quick else 900, "c13_mut", sample_every=197, max_triage=4, args=set(args))
@@ -759,7 +760,7 @@ func Harness_C03rt(n int) {
     tmo = 120 if quick else 900
     agg = merge_agg(agg, overlay_explore(rep, "C03", ov, "Harness_C03layout$", 0, 0, tmo, "c03_layout", sample_every=23, max_triage=3, args=set(lay_args)))
     agg = merge_agg(agg, overlay_explore(rep, "C03", ov, "Harness_C03comment$", 0, 0, tmo, "c03_comment", sample_every=23, max_triage=3, args=set(lay_args[::2] if quick else lay_args)))
-    esc_args = [q * 16 + n for q in (0, 1) for n in ((1, 3) if quick else (1, 3, 5, 9))]
+    esc_args = [q * 16 + n for q in (0, 1) for n in ((1, 3, 5) if quick else (1, 3, 5, 9))]
     agg = merge_agg(agg, overlay_explore(rep, "C03", ov, "Harness_C03escape$", 0, 0, tmo, "c03_escape", sample_every=23, max_triage=3, args=set(esc_args)))
     agg = merge_agg(agg, overlay_explore(rep, "C03", ov, "Harness_C03class$", 0, 3 if quick else 4, tmo, "c03_class", sample_every=23, max_triage=3))
     agg = merge_agg(agg, overlay_explore(rep, "C03", ov, "Harness_C03op$", 0, 0, tmo, "c03_op", sample_every=3, max_triage=3))
@@ -815,7 +816,8 @@ def check_C20(tier, seed):
     cats = [g for g in cores.all_c01() + cores.context_catalogue() + cores.fail_catalogue() + cores.lr_catalogue() + cores.opt_catalogue() + cores.class_catalogue()
             if in_bootstrap_subset(g)]
     if quick:
-        cats = cats[::4]
+        must = [g for g in cats if g["name"] in ("og_nestseq", "og_mixnest", "og_nestcho", "c_deepchoice", "c_labels", "cx_nested")]
+        cats = cats[::4] + [g for g in must if g not in cats[::4]]
     rt = []
     for g in cats:
         g = json.loads(json.dumps(g))
@@ -964,8 +966,17 @@ def check_C04(tier, seed):
             if gspec.uses_state(g) and not gspec.has_state_block(g) and "-optimize-parser" in flags:
                 continue
             cases.append(ref_case(g, ["C04init"], flagset="c04_" + tag))
-    lr = [ref_case(g, ["C04init"], flagset="lr") for g in cores.lr_catalogue()[: (2 if quick else 5)]]
-    cases += lr
+    # left-recursive grammars (one of them with state blocks): every flag subset that contains -support-left-recursion
+    lrg = [g for g in cores.lr_catalogue() if g["name"] in (("lr_state", "lr_indirect") if quick else tuple(x["name"] for x in cores.lr_catalogue()))]
+    for g in lrg:
+        masks = [m for m in all_masks if m >> 3 & 1]
+        if quick:
+            masks = sorted(set([8, 9, 31] + rnd.sample(masks, 3)))
+        for mask in masks:
+            flags = [f for k, (f, _) in enumerate(flag_bits) if mask >> k & 1]
+            tag = "".join(c for k, (_, c) in enumerate(flag_bits) if mask >> k & 1)
+            FLAGSETS["c04_" + tag] = flags
+            cases.append(ref_case(g, ["C04init"], flagset="c04_" + tag))
     catcheck.prepare(w, cases)
     gen_fail = [c for c in cases if c.gen_errors]
     for c in gen_fail:
@@ -981,11 +992,12 @@ def check_C04(tier, seed):
         # report per package
         seen = set()
         for l in lines[:20]:
-            pk = l.split("/p/")[0]
+            mm = re.search(r"([A-Za-z0-9_]+)/p/", l)
+            pk = mm.group(1) if mm else l.split("/p/")[0]
             if pk in seen:
                 continue
             seen.add(pk)
-            cid = pk.lstrip("./")
+            cid = pk
             cs = next((c for c in good if c.id == cid), None)
             doc = {"property": "C04", "case": cid, "msg": "go vet / build: " + l[:200], "peg": cs.peg if cs else "", "flags": cs.meta.get("flagset") if cs else "", "tags": [], "input": [], "model": {}}
             k = match_known("C04", doc)
@@ -1027,7 +1039,7 @@ def check_C18(tier, seed):
     rep = Report("C18", tier, seed, "other")
     w = Work()
     w.build_pigeon()
-    N, tmo = (1, 120) if quick else (2, 1800)
+    N, tmo = (1, 400) if quick else (2, 3000)
     cases = []
     for g in cat:
         for fs in ("std", "opt"):
@@ -1036,8 +1048,35 @@ def check_C18(tier, seed):
             cases.append(ref_case(g, ["C18"], flagset=fs))
     for g in lr:
         cases.append(ref_case(g, ["C18"], flagset="lr"))
+    def confirm(w_, rel, hname, arg, model, msg):
+        """A discipline violation seen by the engine monitor has no assertion in the
+        sequential native harness: confirm it with the race detector on a concurrent run."""
+        if not msg.startswith("C18: a ") and "pool" not in msg:
+            return None
+        out = os.path.join(w_.dir, "tb", "race_" + hashlib.sha1(rel.encode()).hexdigest()[:10] + ".test")
+        os.makedirs(os.path.dirname(out), exist_ok=True)
+        if not os.path.exists(out):
+            b = subprocess.run(["go", "test", "-race", "-vet=off", "-c", "-o", out, "./" + rel], cwd=w_.mod, env=base_env(), capture_output=True, text=True, errors="replace")
+            if b.returncode != 0:
+                log("race build failed:", b.stderr[-400:])
+                return None
+        mp = os.path.join(w_.dir, "race-model-%s.json" % hashlib.sha1(json.dumps([rel, arg, model], sort_keys=True).encode()).hexdigest()[:10])
+        with open(mp, "w") as f:
+            json.dump({"model": model}, f)
+        env = base_env()
+        env.update({"VERIF_REPLAY": mp, "VERIF_HARNESS": "Harness_C18native", "VERIF_ARG": str(arg)})
+        text, timed_out = run_group([out, "-test.run", "TestReplay$", "-test.v"], cwd=os.path.join(w_.mod, rel), env=env, timeout=180)
+        nat = parse_native(text)
+        if "WARNING: DATA RACE" in text:
+            nat["fails"].append("race detector: DATA RACE")
+        if "fatal error: concurrent map" in text:
+            nat["fails"].append("fatal error: concurrent map access")
+        nat["timeout"] = timed_out
+        return nat
+    for c_ in cases:
+        c_.harness_names = ["Harness_C18", "Harness_C18native"]
     catcheck.prepare(w, cases)
-    agg = catcheck.explore(w, rep, cases, "C18", r"Harness_C18$", N, tmo, "ref", seed=seed, validate_pkgs=5 if quick else 16)
+    agg = catcheck.explore(w, rep, cases, "C18", r"Harness_C18$", N, tmo, "ref", seed=seed, validate_pkgs=5 if quick else 16, confirm=confirm)
     rep.cov.update({
         "explanation": "Goroutine interleavings are not encoded (DESIGN.md §5). Decided by the solver for all pairs of inputs within the bound on the catalogue: (1) during Parse no store, map update or delete targets an object reachable from a package-level variable of the generated package (engine monitor on every Store/MapUpdate/delete); (2) a map is empty when it is handed to sync.Pool.Put and is not read or written again until Pool.Get returns it; (3) Pool.Get returns nondeterministically any pooled map or a fresh one and the result of a Parse is the same as when it ran first. Given 1-3 and the linearizability of sync.Pool (trusted), two concurrent calls share no mutable location: every schedule yields the sequential results and there is no data race - a paper argument, stated as such.",
         "evaluations": agg["paths"], "distinct_nontrivial": agg["completed"], "programs": len(cases),
